@@ -37,6 +37,11 @@ def project_list(tier):
     out.append(("chain:drain", ("f_chain", {}), {"njob": 2}, True))
     out.append(("fail:drain", ("f_fail", {"kind": "fail"}), {"njob": 2, "keep_going": True}, True))
     out.append(("glob_product", ("f_twoplans", {"kind": "glob_vs_output_conflict"}), {"njob": 1}, False))
+    # second builds: the first build leaves failed steps behind, the plan is then repaired
+    for kg in (False, True):
+        for first in ("child_and_plan_fail", "fail", "plan_fails"):
+            out.append((f"repaired-after:{first}:kg{int(kg)}", ("f_fail", {"kind": "repaired"}),
+                        {"njob": 2, "keep_going": kg}, False, ("f_fail", {"kind": first})))
     return out
 
 
@@ -53,7 +58,15 @@ def drain_events(sim):
 
 def _run(spec, prefix):
     fam, knobs = spec["proj"]
-    w = fresh_world(getattr(projects, fam)(**knobs), "c19")
+    if spec.get("first"):
+        fam1, knobs1 = spec["first"]
+        files1 = getattr(projects, fam1)(**knobs1)
+        w = fresh_world(files1, "c19")
+        session(w, dict(spec["cfg"]), ())
+        from .. import hist
+        hist.sync(w, files1, getattr(projects, fam)(**knobs))
+    else:
+        w = fresh_world(getattr(projects, fam)(**knobs), "c19")
     cfg = dict(spec["cfg"])
     if spec["drain"]:
         cfg["env_events"] = drain_events
@@ -151,8 +164,10 @@ def analyse(obs):
 def jobs(tier, seed):
     bound = 1 if tier == "quick" else 2
     out = []
-    for name, proj, cfg, drain in project_list(tier):
-        spec = {"name": name, "proj": proj, "cfg": cfg, "drain": drain, "bound": bound}
+    for entry in project_list(tier):
+        name, proj, cfg, drain = entry[:4]
+        spec = {"name": name, "proj": proj, "cfg": cfg, "drain": drain, "bound": bound,
+                "first": entry[4] if len(entry) > 4 else None}
         if tier == "quick":
             out.append({**spec, "root": [], "only_root": False})
         else:
